@@ -82,11 +82,35 @@ class FakeRng:
         self.z = np.random.default_rng(seed)
         self.calls = []
 
-    def normal(self, loc, scale, size=None):
+    def normal(self, loc=0.0, scale=1.0, size=None):
         n = int(np.prod(size)) if size is not None else 1
         z = self.z.standard_normal(n)
         self.calls.append({"loc": float(loc), "scale": float(scale), "n": n, "z": z.tolist()})
         return (loc + scale * z).reshape(size) if size is not None else float(loc + scale * z[0])
+
+    def standard_normal(self, size=None, *a, **k):
+        # the caller scales the draws itself: the scale is then read off the returned phenotypes (see `scale_of`)
+        n = int(np.prod(size)) if size is not None else 1
+        z = self.z.standard_normal(n)
+        self.calls.append({"loc": 0.0, "scale": None, "n": n, "z": z.tolist()})
+        return z.reshape(size) if size is not None else float(z[0])
+
+    def __getattr__(self, name):
+        raise C.GlueBroken(f"the simulator asks its generator for `{name}`, which the recording stand-in does not provide")
+
+
+def scale_of(call, y, g, quantitative):
+    """the standard deviation of the noise of one replication: what the generator was asked for, or – when the simulator scales
+    standard-normal draws itself – the least-squares factor between the draws and phenotype minus genetic component"""
+    if call["scale"] is not None:
+        return call["scale"]
+    if not quantitative:
+        return None
+    z = np.array(call["z"])
+    zz = float(z @ z)
+    if zz == 0 or len(z) != len(y):
+        return None
+    return float(((np.array(y) - g) @ z) / zz)
 
 
 def build_gt(case):
@@ -119,7 +143,9 @@ def impl(case):
 
     back = Phenotypes(_dir / "o.pheno", log=SD.silent_log())
     back.read()
-    return {"y": ys, "calls": fake.calls, "names": list(sim.phens.names), "phens": np.asarray(sim.phens.data).tolist(), "file_names": list(back.names), "file_data": np.asarray(back.data).tolist(), "file_samples": list(back.samples)}
+    _, _, gcomp = genetic(case)
+    scales = [scale_of(c, y, gcomp, case["K"] is None) for c, y in zip(fake.calls, ys)]
+    return {"y": ys, "calls": fake.calls, "scales": scales, "names": list(sim.phens.names), "phens": np.asarray(sim.phens.data).tolist(), "file_names": list(back.names), "file_data": np.asarray(back.data).tolist(), "file_samples": list(back.samples)}
 
 
 def genetic(case):
@@ -153,9 +179,11 @@ def model_obs(case, resp):
 def equal(a, b):
     if "error" in a:
         return False
-    for c in a["calls"]:
-        got = c["scale"] ** 2
-        if abs(got - b["noise"]) > 1e-9 * max(1.0, abs(b["noise"])):
+    for c, sc in zip(a["calls"], a.get("scales", [])):
+        if sc is None:
+            continue  # case/control output of a simulator that scales the draws itself: the noise variance is not observable
+        tol = 1e-9 if c["scale"] is not None else 1e-6
+        if abs(sc**2 - b["noise"]) > tol * max(1.0, abs(b["noise"])):
             return False
     if b["cases"] is not None:
         for y in a["y"]:
@@ -184,9 +212,10 @@ def oracle(case, obs):
     for r, c in enumerate(obs["calls"]):
         if c["loc"] != 0 or c["n"] != ns:
             return f"replication {r}: noise drawn with mean {c['loc']} and {c['n']} values for {ns} samples"
-        if abs(c["scale"] ** 2 - noise) > 1e-9 * max(1, noise):
-            return f"replication {r}: noise variance {c['scale']**2}, documented value {noise} (betas {betas.tolist()}, h2 {case['h2']}, env {case['env']}, var(genetic) {float(np.var(g))})"
-        liab = g + c["scale"] * np.array(c["z"])
+        sc = obs["scales"][r]
+        if sc is not None and abs(sc**2 - noise) > (1e-9 if c["scale"] is not None else 1e-6) * max(1, noise):
+            return f"replication {r}: noise variance {sc**2}, documented value {noise} (betas {betas.tolist()}, h2 {case['h2']}, env {case['env']}, var(genetic) {float(np.var(g))})"
+        liab = g + (sc if sc is not None else math.sqrt(noise)) * np.array(c["z"])
         y = np.array(obs["y"][r])
         if case["K"] is None:
             if np.max(np.abs(y - liab)) > 1e-9 * max(1.0, float(np.max(np.abs(liab)))):
